@@ -151,7 +151,7 @@ func init() {
 			}
 		},
 		Rule: "schedules: N in {2,4,16,64} goroutines x mixed operations on private subtrees through ONE handler and ONE client (webdav on disk, caldav and carddav on recording backends; in-process and over TCP), GOMAXPROCS in {1,2,4,16}, driver-side jitter, repeated; every result is compared with the private solo model of that worker and the final directory with the union of the workers' trees; the worker binary is built with -race and the race log is read back. " +
-			"fault matrix (exhaustive): scripted raw-TCP server {answers before reading, reads k bytes then answers / drops / resets, stalls until the caller cancels, reads all then answers} x status x {close, drain, hold} x size {0, 10 B, 1 MiB, 8 MiB} x write chunking x caller behaviour; call/return events at the caller and at the inner HTTP client boundary stamped from one counter. " +
+			"fault matrix (exhaustive): scripted raw-TCP server {answers before reading, reads k bytes then answers / drops / resets, stalls until the caller cancels, reads all then answers} x status x {close, drain, hold} x size {0, 10 B, 1 MiB, 8 MiB} x write chunking x caller behaviour x caller-side cancellation point {never, at 0, half-way, after the last Write}; call/return events at the caller and at the inner HTTP client boundary stamped from one counter. " +
 			"distinct_nontrivial = distinct interleaving signatures (global call/return order per run) + distinct fault-matrix cells.",
 		Assumptions: []string{
 			"the reference for Close is what the inner HTTPClient returned, not what the server sent (net/http may legitimately report a write error or the early response)",
